@@ -842,6 +842,10 @@ func (s *xswScript) realSP(t trustCfg) *saml.ServiceProvider {
 // ---------- one case ----------
 
 func (c *Ctx) xswCase(nOps int, forcedOps []int, validBase int) {
+	c.xswCaseX(nOps, forcedOps, validBase, false)
+}
+
+func (c *Ctx) xswCaseX(nOps int, forcedOps []int, validBase int, artifact bool) {
 	s := &xswScript{c: c, blobTok: map[string]string{}, certTok: map[string]string{}, trusted: map[string]bool{}, now: ms(baseTime)}
 	s.cfg = baseCfg()
 	if c.chance(0.3) {
@@ -882,6 +886,31 @@ func (c *Ctx) xswCase(nOps int, forcedOps []int, validBase int) {
 	}
 	evil := s.assertion("mallory", c.pick("id-evil", "id-a1"))
 
+	artLayout := ""
+	var arEl *etree.Element
+	if artifact {
+		// the (possibly rearranged) Response travels inside an ArtifactResponse inside a SOAP envelope
+		ar := saml.ArtifactResponse{ID: "id-art1", InResponseTo: "id-artreq", Version: "2.0", IssueInstant: time.UnixMilli(s.now - 400).UTC(),
+			Issuer: &saml.Issuer{Value: s.cfg.IDPEntity}, Status: saml.Status{StatusCode: saml.StatusCode{Value: s.cfg.Success}}}
+		arEl = ar.Element()
+		// ArtifactResponse.Element() writes an (empty) Response of its own: replace it
+		for _, ch := range arEl.ChildElements() {
+			if ch.Tag == "Response" {
+				arEl.RemoveChild(ch)
+			}
+		}
+		arEl.AddChild(root)
+		artLayout = c.pick("unsigned", "unsigned", "signed-idp", "signed-idp", "signed-attacker")
+		switch artLayout {
+		case "signed-idp":
+			arEl = s.sign(arEl, "idp")
+			if trust.set["idp"] {
+				s.trusted["alice|alice"] = true
+			}
+		case "signed-attacker":
+			arEl = s.sign(arEl, "attacker")
+		}
+	}
 	// attacker phase
 	var opNames []string
 	for i := 0; i < nOps; i++ {
@@ -890,9 +919,57 @@ func (c *Ctx) xswCase(nOps int, forcedOps []int, validBase int) {
 			idx = forcedOps[i]
 		}
 		op := attackOps[idx]
-		root = op.run(s, root, evil)
+		if artifact {
+			var inner *etree.Element
+			for _, ch := range arEl.ChildElements() {
+				if ch.Tag == "Response" {
+					inner = ch
+					break
+				}
+			}
+			if inner != nil {
+				pos := inner.Index()
+				out := op.run(s, inner, evil)
+				if out != inner {
+					insertAt(arEl, out, pos)
+				}
+			}
+		} else {
+			root = op.run(s, root, evil)
+		}
 		opNames = append(opNames, op.name)
 	}
+	if artifact {
+		switch c.rng.Intn(10) {
+		case 0:
+			arEl.AddChild(s.response("id-second")) // two Response children
+			artLayout += "+second-response"
+		case 1:
+			e := s.response("id-evil-r")
+			e.AddChild(evil.Copy())
+			insertAt(arEl, e, 0)
+			artLayout += "+evil-response-first"
+		case 2:
+			arEl.CreateAttr("InResponseTo", "id-other-artreq")
+			artLayout += "+wrong-artifact-id"
+		}
+		env := etree.NewElement("soapenv:Envelope")
+		env.CreateAttr("xmlns:soapenv", "http://schemas.xmlsoap.org/soap/envelope/")
+		if c.chance(0.1) {
+			env.CreateAttr("xmlns:soapenv", "urn:evil")
+			artLayout += "+foreign-envelope"
+		}
+		body := env.CreateElement("soapenv:Body")
+		body.AddChild(arEl)
+		if c.chance(0.08) {
+			b2 := env.CreateElement("soapenv:Body")
+			b2.AddChild(arEl.Copy())
+			artLayout += "+two-bodies"
+		}
+		root = env
+		c.count("c01-artifact-layout", artLayout)
+	}
+
 	s.ops = opNames
 	if s.bobSpliced && trust.set["idp"] {
 		s.trusted["bob|bob"] = true
@@ -916,12 +993,22 @@ func (c *Ctx) xswCase(nOps int, forcedOps []int, validBase int) {
 	setGlobals(s.cfg, s.now)
 	sp := s.realSP(trust)
 	impl := safely(func() string {
-		as, err := sp.ParseXMLResponse(xmlBytes, []string{"id-req1"}, mustURL(s.cfg.Acs))
+		var as *saml.Assertion
+		var err error
+		if artifact {
+			as, err = sp.ParseXMLArtifactResponse(xmlBytes, []string{"id-req1"}, "id-artreq", mustURL(s.cfg.Acs))
+		} else {
+			as, err = sp.ParseXMLResponse(xmlBytes, []string{"id-req1"}, mustURL(s.cfg.Acs))
+		}
 		if err == nil && as != nil {
 			return "ok " + encStr(identFull(as))
 		}
 		return canonParse(as, err)
 	})
+	opName := "xsw"
+	if artifact {
+		opName = "xswart"
+	}
 
 	// what the model is given: parse the same bytes again, dump, compute the views with the library's own helpers
 	wellFormed := xrv.Validate(bytes.NewReader(xmlBytes)) == nil
@@ -935,24 +1022,35 @@ func (c *Ctx) xswCase(nOps int, forcedOps []int, validBase int) {
 	toks = append(toks, encStrList([]string{"id-req1"})...)
 	toks = append(toks, encStr(s.cfg.Acs), encBool(wellFormed && perr == nil && pdoc.Root() != nil))
 	toks = append(toks, s.ledgerToks()...)
+	if artifact {
+		toks = append(toks, encStr("id-artreq"))
+	}
 	if perr != nil || pdoc.Root() == nil {
-		toks = append(toks, "-", "t", "0", encStr(""), "0", "0", "0")
-		c.emit("xsw", toks, impl, s.forgeryOracle(impl))
+		if artifact {
+			toks = append(toks, "t", "0", encStr(""), "0", "0", "0", "0", "0")
+		} else {
+			toks = append(toks, "-", "t", "0", encStr(""), "0", "0", "0")
+		}
+		c.emit(opName, toks, impl, s.forgeryOracle(impl))
 		return
 	}
 	proot := pdoc.Root()
 	sp2 := s.realSP(trust) // a separate instance for the views
-	var hdr saml.Response
-	if err := saml.VerifUnmarshalElement(proot, &hdr); err != nil {
-		toks = append(toks, "-")
-	} else {
-		toks = append(toks, "+", encStr(hdr.Destination), encStr(hdr.InResponseTo), encInt(ms(hdr.IssueInstant)))
-		if hdr.Issuer == nil {
-			toks = append(toks, "-")
-		} else {
-			toks = append(toks, "+", encStr(hdr.Issuer.Value))
+	hdrToks := func(el *etree.Element) []string {
+		var hdr saml.Response
+		if err := saml.VerifUnmarshalElement(el, &hdr); err != nil {
+			return []string{"-"}
 		}
-		toks = append(toks, encStr(hdr.Status.StatusCode.Value))
+		t := []string{"+", encStr(hdr.Destination), encStr(hdr.InResponseTo), encInt(ms(hdr.IssueInstant))}
+		if hdr.Issuer == nil {
+			t = append(t, "-")
+		} else {
+			t = append(t, "+", encStr(hdr.Issuer.Value))
+		}
+		return append(t, encStr(hdr.Status.StatusCode.Value))
+	}
+	if !artifact {
+		toks = append(toks, hdrToks(proot)...)
 	}
 	d := &dumper{s: s, nid: map[*etree.Element]int{}}
 	toks = append(toks, d.node(proot)...)
@@ -964,7 +1062,15 @@ func (c *Ctx) xswCase(nOps int, forcedOps []int, validBase int) {
 	}
 	var plains []pl
 	var aviewEls []*etree.Element
-	for _, ch := range proot.ChildElements() {
+	respEls := []*etree.Element{proot}
+	if artifact {
+		respEls = findByTag(proot, "Response")
+	}
+	var candidates []*etree.Element
+	for _, r := range respEls {
+		candidates = append(candidates, r.ChildElements()...)
+	}
+	for _, ch := range candidates {
 		if ch.Tag == "EncryptedAssertion" {
 			p := s.independentDecrypt(ch)
 			_ = sp2
@@ -1025,8 +1131,32 @@ func (c *Ctx) xswCase(nOps int, forcedOps []int, validBase int) {
 	if len(opNames) == 0 {
 		c.count("c01-noop-outcome", fmt.Sprintf("%s enc=%v signer=%s trust=%s%d -> %s", layout, encrypted, signer, trust.kind, len(trust.kds), strings.Fields(impl)[0]))
 	}
-	id := c.emit("xsw", toks, impl, s.forgeryOracle(impl))
-	c.note(id, fmt.Sprintf("layout=%s enc=%v signer=%s trust=%s%d ops=%v", layout, encrypted, signer, trust.kind, len(trust.kds), opNames))
+	if artifact {
+		toks = append(toks, fmt.Sprint(len(respEls)))
+		for _, r := range respEls {
+			toks = append(toks, fmt.Sprint(d.nid[r]))
+			toks = append(toks, hdrToks(r)...)
+		}
+		arEls := findByTag(proot, "ArtifactResponse")
+		toks = append(toks, fmt.Sprint(len(arEls)))
+		for _, a := range arEls {
+			toks = append(toks, fmt.Sprint(d.nid[a]))
+			var ar saml.ArtifactResponse
+			if err := saml.VerifUnmarshalElement(a, &ar); err != nil {
+				toks = append(toks, "-")
+			} else {
+				toks = append(toks, "+", encStr(ar.InResponseTo), encInt(ms(ar.IssueInstant)))
+				if ar.Issuer == nil {
+					toks = append(toks, "-")
+				} else {
+					toks = append(toks, "+", encStr(ar.Issuer.Value))
+				}
+				toks = append(toks, encStr(ar.Status.StatusCode.Value))
+			}
+		}
+	}
+	id := c.emit(opName, toks, impl, s.forgeryOracle(impl))
+	c.note(id, fmt.Sprintf("layout=%s enc=%v signer=%s trust=%s%d artifact=%q ops=%v", layout, encrypted, signer, trust.kind, len(trust.kds), artLayout, opNames))
 }
 
 // independentDecrypt is the harness's own reading of what decrypting an EncryptedAssertion means: exactly one
@@ -1135,6 +1265,18 @@ func (c *Ctx) genC01() {
 				c.xswCase(2, []int{i, j}, c.rng.Intn(6))
 			}
 		}
+	}
+	// the artifact binding: the same scripts inside ArtifactResponse / SOAP envelope
+	na := 300
+	if !c.quick() {
+		na = 6000
+	}
+	for i := 0; i < na; i++ {
+		vb := -1
+		if c.chance(0.7) {
+			vb = c.rng.Intn(6)
+		}
+		c.xswCaseX(c.rng.Intn(3), nil, vb, true)
 	}
 	n := 900
 	if !c.quick() {
